@@ -92,7 +92,8 @@ OV_OLLAMA = {
     "runner/ollamarunner/zz_verif_c14_multi_test.go": "runner_ollamarunner/zz_verif_c14_multi_test.go",
     "runner/ollamarunner/zz_verif_c14_handler_test.go": "runner_ollamarunner/zz_verif_c14_handler_test.go",
 }
-OV_LLAMA = {"runner/llamarunner/zz_verif_c14_test.go": "runner_llamarunner/zz_verif_c14_test.go"}
+OV_LLAMA = {"runner/llamarunner/zz_verif_c14_test.go": "runner_llamarunner/zz_verif_c14_test.go",
+            "runner/llamarunner/zz_verif_c14_loop_test.go": "runner_llamarunner/zz_verif_c14_loop_test.go"}
 
 
 def lean_str(s):
@@ -205,6 +206,17 @@ def run(ctx):
         ctx.read_stats(outdir)
         ctx.l1(outdir, label="L1-llama-flush")
         ctx.classify(ctx.l2(outdir))
+
+    # (3b) llamarunner's own per-token loop, executed: the real llamarunner.Server.processBatch on the real llama.cpp
+    # context, behind it a generated GGUF model whose greedy continuation follows the script
+    env = {"VERIF_N": ctx.scale(1500, 40000), "VERIF_EXH": ctx.scale(4, 5), "VERIF_C14_PINNED": PINNED_FINDSTOP}
+    env.update(env_replay)
+    rc, out, outdir = ctx.go_test("./runner/llamarunner/", OV_LLAMA, "^TestVerifC14LlamaLoop$", env=env, timeout=2400)
+    if rc != 0:
+        ctx.violation("driver-failed", "", out[-1500:], no_input=True)
+    ctx.read_stats(outdir)
+    ctx.l1(outdir, label="L1-llama-loop")
+    ctx.classify(ctx.l2(outdir))
 
     ctx.assumptions += [
         "after a client disconnect (seq.quit closed) the decode loop's behaviour is not modelled (nondeterministic select); "
